@@ -150,10 +150,14 @@ fn run_config(mode: &str, n: usize, pool: Option<usize>, reps: usize, timeout_ms
 }
 
 pub fn run(args: &Args, rep: &mut Report) {
+    if args.flag("child") {
+        // the real side of generated cases, in a process whose RAYON_NUM_THREADS the parent chose
+        crate::engines::rdv_gen::child_main();
+    }
     let mut drv = Drv::spawn(&args.str("driver", "/verif/lean/.lake/build/bin/driver"));
     let timeout = args.num("timeout-ms", 10000);
     let reps = args.num("reps", 5) as usize;
-    rep.rule = "complete enumeration: stage width 2..16 × pool size {width, width+3} × {user-supplied pool, default pool, batch-inner stage, async dispatcher} × 5 repeated dispatches, each with rendezvous systems (every system waits until all siblings are inside run); distinct = configurations; non-trivial = all of them (width ≥ 2); plus negative controls (pool smaller than the stage must time out)".into();
+    rep.rule = "(1) complete enumeration: stage width 2..16 × pool size {width, width+3} × {user-supplied pool, default pool, batch-inner stage, async dispatcher} × 5 repeated dispatches, each with rendezvous systems (every system waits until all siblings are inside run); distinct = configurations; non-trivial = all of them (width ≥ 2); plus negative controls (pool smaller than the stage must time out). (2) generated cases: a configuration (build / build_async; dispatch called from the main thread, a worker of a foreign pool or of the own pool; dispatch / dispatch_par / run_now; default pool with RAYON_NUM_THREADS chosen by the harness, user-supplied pool given before or after the batches, pools given to batch builders) and registrations (stages of widths 1..pool size with uniform or mixed running-time hints, resource-touching or resource-free systems, groups of several systems, batches and nested batches narrower / wider than their parent, plus the profile-driven generator of the plan engine); the plan is read from the shape hooks and must equal the model's; every stage with at least two groups of every dispatcher is rendezvoused on (one waiting system per group, batch controllers included) over repeated dispatches, in a child process per RAYON_NUM_THREADS value; distinct = configuration x plan shape; non-trivial = at least one rendezvous experiment".into();
     rep.exhaustive = true;
     // how many threads does the default pool have here?
     let default_threads = {
@@ -162,6 +166,11 @@ pub fn run(args: &Args, rep: &mut Report) {
     };
     rep.add("default_pool_threads", default_threads as u64);
     let one = args.get("replay").and_then(|f| std::fs::read_to_string(f).ok()).map(|t| t.lines().next().unwrap_or("").to_string());
+    if one.as_ref().map(|l| l.starts_with("rdv ")).unwrap_or(false) {
+        // a generated case
+        crate::engines::rdv_gen::run_generated(args, rep, &mut drv);
+        return;
+    }
     let mut configs: Vec<(String, usize, Option<usize>)> = vec![];
     if let Some(l) = one {
         let p: Vec<&str> = l.split_whitespace().collect();
@@ -181,6 +190,7 @@ pub fn run(args: &Args, rep: &mut Report) {
             }
         }
     }
+    let mut enumeration_failed = false;
     for (mode, n, pool) in configs {
         let workers = pool.unwrap_or(default_threads);
         let (ok, width, met) = run_config(&mode, n, pool, reps, timeout);
@@ -201,6 +211,7 @@ pub fn run(args: &Args, rep: &mut Report) {
             if model != "deadlock" {
                 // model says it completes
             }
+            enumeration_failed = true;
             break;
         }
         if model != "completes" {
@@ -217,5 +228,8 @@ pub fn run(args: &Args, rep: &mut Report) {
                 rep.violate("MODEL:pool", "model", "", format!("negative control: width {} on {} workers: real completed={} (met {}), model {}", n, p, ok, met, model), vec![format!("rendezvous top {} {}", n, p)]);
             }
         }
+    }
+    if args.get("replay").is_none() && !enumeration_failed {
+        crate::engines::rdv_gen::run_generated(args, rep, &mut drv);
     }
 }
